@@ -460,7 +460,16 @@ func runC12(p *Prog, r *Report) {
 		val, ok, first := false, true, true
 		for in := range Reach(allow, gif, nil, func(x Edge) bool { return !(x.B == other.B && x.K == other.K) }) {
 			if ret, isR := in.(*ssa.Return); isR {
-				k, isC := constBool(ReturnOperand(ret, 0))
+				rv := ReturnOperand(ret, 0)
+				k, isC := constBool(rv)
+				if !isC {
+					// `allow := e < t; ...; return allow`: the result IS the branch condition
+					c1, p1 := condStrip(rv)
+					c2, p2 := condStrip(gif.Cond)
+					if c1 == c2 {
+						k, isC = (e.K == 0) == (p1 == p2), true
+					}
+				}
 				if !isC || (!first && k != val) {
 					ok = false
 				}
